@@ -19,6 +19,8 @@
       entry being released by a WithdrawUnbonded at block time >= time + unbonding_period;
     - [released_immutable], [release_after_period], [release_not_early], [release_at_boundary]
       (boundary second exact both ways), [no_pay_before_release];
+    - [released_forever]       : along any history that does not re-instantiate the hub, a released
+      entry is found unchanged in every later world;
     - [step_msg_now], [step_now_monotone] : block time never decreases along a history (only
       OReset re-initialises the chain). *)
 From Krp Require Import Tactics Prelude Fixed FMap Types Env Registry Cw20 Reward Dispatcher Hub Exec
@@ -475,6 +477,56 @@ Proof.
     intros w0 s m0 w' out0 HI Hs. apply step_msg_now in Hs. congruence.
 Qed.
 
+(** ** a released entry stays as it is for the rest of the history *)
+
+(** operations that do not replace the hub contract instance *)
+Definition keeps_hub (o : op) : bool :=
+  match o with OReset _ | OInstHub _ _ _ _ _ _ _ _ => false | _ => true end.
+
+Section ReleasedForever.
+  Variables (i : N) (e : hist_entry).
+  Hypothesis e_released : he_released e = true.
+
+  Definition HasReleased (w : world) : Prop :=
+    exists h, w_hub w = Some h /\ LifeInv h /\ get N.eqb (h_hist h) i = Some e.
+
+  Lemma step_msg_has_released w s m w' out :
+    HasReleased w -> step_msg w s m = Some (w', out) -> HasReleased w'.
+  Proof.
+    intros HI H. apply step_msg_inv in H. destruct H as [e' -> _ _ | to wm funds e1 o -> Hsend Hc _].
+    - exact HI.
+    - destruct HI as (h0 & Hw0 & HL & Hg). unfold HasReleased.
+      destruct Hc as [h hm h' -> -> Hw He -> | r rm r' -> _ Hw He -> | d dm d' -> -> Hw He ->
+                     | g gm g' -> -> Hw He -> | t cm t' -> -> Hw He -> | t cm t' -> -> Hw He ->
+                     | sm e' -> -> He -> -> | -> -> ->]; cbn [w_hub set_hub set_reward set_disp
+                        set_reg set_bsei set_stsei set_env] in *; try solve [exists h0; auto].
+      rewrite Hw0 in Hw. inversion Hw; subst h. exists h'. split; [reflexivity|].
+      split; [eapply life_inv_execute; eauto|].
+      eapply released_immutable; [destruct HL as (X & _); exact X | exact He | exact Hg | left; exact e_released].
+  Qed.
+
+  Lemma step_has_released w o : keeps_hub o = true -> HasReleased w -> HasReleased (fst (step w o)).
+  Proof.
+    intros Hk HI. destruct o; try discriminate Hk; cbn [step]; try exact HI.
+    - destruct (e_now (w_env w) + dt <=? 18446744073); exact HI.
+    - destruct (ev_slash _ _ _ _ _); exact HI.
+    - destruct (ev_accrue _ _ _ _ _); exact HI.
+    - destruct (p =? 0); exact HI.
+    - destruct HI as (h0 & Hw0 & HL & Hg). rewrite Hw0. cbn [fst]. eexists. split; [reflexivity|].
+      split; [|exact Hg]. eapply life_inv_ext; [| | | |exact HL]; reflexivity.
+    - destruct (run tx_fuel w _ []) as [[w1 tr1]|] eqn:E; cbn [fst]; [|exact HI].
+      eapply (run_preserves HasReleased); [|exact HI|exact E]. intros. eapply step_msg_has_released; eauto.
+  Qed.
+
+  Theorem released_forever : forall ops w,
+    forallb keeps_hub ops = true -> HasReleased w -> HasReleased (run_ops ops w).
+  Proof.
+    unfold run_ops. induction ops as [|o ops IH]; intros w Hk HI; cbn [fold_left]; [exact HI|].
+    cbn [forallb] in Hk. apply andb_true_iff in Hk. destruct Hk as [Ho Hk].
+    apply IH; [exact Hk|]. apply step_has_released; assumption.
+  Qed.
+End ReleasedForever.
+
 (** ** concrete worlds: non-vacuity and the boundary second (worlds of ClaimsP.v: epoch 30 s,
     unbonding 100 s, batch 1 undelegated at t = 1000031) *)
 
@@ -501,7 +553,7 @@ Example example_epoch_boundary :
   (exists h h' out, let w := fst (step cx_w1 (OAdvance 31)) in
      w_hub w = Some h /\ e_now (w_env w) - hs_lut (h_state h) = hp_epoch (h_params h) + 1 /\
      hub_execute w h A_hub A_stsei [] (HReceive cx_bob 700 HkUnbond) = Some (h', out) /\
-     cb_id (h_batch h') = 2 /\ undelegated_sum out = 36417).
+     cb_id (h_batch h') = 2 /\ undelegated_sum out = 35427).
 Proof.
   split.
   - destruct (w_hub (fst (step cx_w1 (OAdvance 30)))) as [h|] eqn:E; [|vm_compute in E; discriminate].
@@ -537,4 +589,29 @@ Proof.
   vm_compute in E. inversion E; subst h. clear E.
   eexists _, _, _, _. cbn zeta. split; [vm_compute; reflexivity|]. split; [vm_compute; reflexivity|].
   vm_compute. repeat split.
+Qed.
+
+(** [undelegation_spacing], [release_not_early], [hist_entry_step] are not vacuous: 31 s after
+    batch 1 was undelegated an stSei unbond closes batch 2; the two undelegation times are
+    1000031 and 1000062 (epoch 30 s); batch 1 is unreleased and untouched (its unbonding period of
+    100 s has not elapsed) *)
+Example example_second_batch_nonvacuous :
+  exists h h' out e1 e2, let w := fst (step cx_w2 (OAdvance 31)) in
+    w_hub w = Some h /\ LifeInv h /\
+    hub_execute w h A_hub A_stsei [] (HReceive cx_bob 500 HkUnbond) = Some (h', out) /\
+    cb_id (h_batch h) = 2 /\ cb_id (h_batch h') = 3 /\
+    get N.eqb (h_hist h) 1 = Some e1 /\ he_released e1 = false /\
+    e_now (w_env w) < he_time e1 + hp_unbonding (h_params h) /\
+    get N.eqb (h_hist h') 1 = Some e1 /\
+    get N.eqb (h_hist h') 2 = Some e2 /\ he_time e1 = 1000031 /\ he_time e2 = 1000062 /\
+    undelegated_sum out = 497.
+Proof.
+  destruct (w_hub (fst (step cx_w2 (OAdvance 31)))) as [h|] eqn:E; [|vm_compute in E; discriminate].
+  assert (HI : LifeInv h).
+  { unfold cx_w2 in E.
+    apply (LifeInv_reachable 100 ((cx_setup ++ cx_acts1 ++ cx_acts2) ++ [OAdvance 31])).
+    unfold run_ops in *. rewrite fold_left_app. exact E. }
+  vm_compute in E. inversion E; subst h. clear E.
+  eexists _, _, _, _, _. cbn zeta. split; [vm_compute; reflexivity|]. split; [exact HI|].
+  split; [vm_compute; reflexivity|]. vm_compute. repeat split.
 Qed.
